@@ -25,14 +25,14 @@ def run_epochops(ctx, q):
                                              "(TLC counterexample: a config file whose epoch number is edited keeps the old epoch served)" if neg.violations else "unrestricted convergence held in the bounded model")
     three = ("1, 2, 3", '"a", "b", "c"')
     cases = ctx.r2_generate(["EpochOps"], "EpochOps", "SPECIFICATION Spec\n" + CONST % (three + (14, 6, "FALSE")) + "INVARIANT ServedRightEpoch\nINVARIANT Emit\nCHECK_DEADLOCK FALSE\n",
-                            name="Gen_EpochOps", simulate=(400 if q else 4000), depth=16, timeout_s=900, workers=1)
+                            name="Gen_EpochOps", simulate=(400 if q else 12000), depth=16, timeout_s=900, workers=1)
     seen, uniq = set(), []
     for c in cases:
         k = sha([[o["op"], o["args"]] for o in c["ops"]])
         if k not in seen:
             seen.add(k)
             uniq.append(c)
-    uniq = uniq[:(400 if q else 4000)]
+    uniq = uniq[:(400 if q else 12000)]
     if len(uniq) < 50:
         raise Inconclusive(f"EpochOps: only {len(uniq)} simulated sequences")
     casep = ctx.write_ndjson("epochops_cases.ndjson", uniq)
